@@ -410,9 +410,11 @@ double Date::localOffset() const
 	if (!tmL)
 		return 0;
 	int        hL = tmL->tm_hour;
+	int        mL = tmL->tm_min;
 	int        dL = tmL->tm_yday;
 	int        yL = tmL->tm_year;
 	struct tm* tmU = gmtime(&tm);
+	int        mU = tmU->tm_min;
 	int        hU = tmU->tm_hour;
 	int        dU = tmU->tm_yday;
 	int        yU = tmU->tm_year;
@@ -421,7 +423,7 @@ double Date::localOffset() const
 		o += 24;
 	else if ((yL < yU && dL > dU) || (yL == yU && dL < dU))
 		o -= 24;
-	return o * 3600;
+	return o * 3600 + (mL - mU) * 60;
 }
 
 #ifdef _WIN32
